@@ -88,6 +88,7 @@ PWS = {"p1": "pw-one \xe9", "p2": "pw-two"}
 
 class Replayer:
     def __init__(self, chk, T, rnd):
+        self.alts = {}          # first spelling of a stored hash -> all its spellings
         self.chk, self.T, self.rnd = chk, T, rnd
 
     def real_cfg(self, cfg):
@@ -153,12 +154,14 @@ class Replayer:
             return pw
         if T[h["scheme"]]["P"]:
             # exactly this cost (using(rounds=..) would let the scheme adjust it, e.g. bsdi forces odd)
-            kwi = {}
-            if h["scheme"] == "bcrypt":         # every ident a stored bcrypt hash may carry
-                kwi["ident"] = self.rnd.choice(["$2a$", "$2b$", "$2y$"])
-            o = base(rounds=h["rounds"], use_defaults=True, **kwi)
-            o.checksum = o._calc_checksum(pw)
-            return o.to_string()
+            outs = []
+            for kwi in ([dict(ident=i) for i in ("$2a$", "$2b$", "$2y$")] if h["scheme"] == "bcrypt" else [{}]):   # every ident a stored bcrypt hash may carry
+                o = base(rounds=h["rounds"], use_defaults=True, **kwi)
+                o.checksum = o._calc_checksum(pw)
+                outs.append(o.to_string())
+            self.rnd.shuffle(outs)
+            self.alts[outs[0]] = outs
+            return outs[0]
         return base.hash(pw)
 
     def run(self, beh, label):
@@ -244,7 +247,14 @@ class Replayer:
                     real[json.dumps(st["h"], sort_keys=True)] = self.make_foreign(st["h"])
                     got = ["ok"]
                 else:
-                    text = real[json.dumps(st["h"], sort_keys=True)]
+                  text0 = real[json.dumps(st["h"], sort_keys=True)]
+                  # an abstract stored hash stands for all its spellings (bcrypt idents): the step must come out the same for each
+                  for text in self.alts.get(text0, [text0]):
+                    wantn = list(exp)
+                    if op == "verify_and_update" and len(wantn) == 2 and isinstance(wantn[1], dict):
+                        wantn[1] = {"scheme": wantn[1]["scheme"], "rounds": wantn[1]["rounds"]}
+                    if got is not None and got != wantn:
+                        break
                     extra["hash"] = text
                     if rnd.random() < .3:
                         text = text.encode()
